@@ -1,3 +1,4 @@
+import Cirbo.Proofs.CodecTotal
 import Cirbo.Proofs.DictIO
 import Cirbo.Proofs.CodecRT
 import Cirbo.Model.Codec
@@ -12,7 +13,9 @@ import Cirbo.Model.Codec
 -- OBLIGATION: c16_enumeration_order
 -- OBLIGATION: c16_circuit_roundtrip
 -- OBLIGATION: c16_circuit_roundtrip_same_function
--- PARTIAL: the circuit-level round trip is proved for every well-formed circuit the encoder accepts (whatever its gate storage order). Which circuits the encoder accepts (gate types with an id, arities, word size) and that malformed byte strings are rejected with the documented errors are decided by the correspondence (the model is compared byte for byte with the code on every run).
+-- OBLIGATION: c16_encode_succeeds_on_conforming
+-- OBLIGATION: c16_encode_errors
+-- PARTIAL: the circuit-level round trip is proved for every well-formed circuit the encoder accepts (whatever its gate storage order). Which circuits the encoder accepts is a theorem too (c16_encode_succeeds_on_conforming: exactly the well-formed circuits over the format's gate types and arities, word size < 256; c16_encode_errors: otherwise a codec error); that malformed byte strings are rejected with the documented errors is decided by the correspondence (the model is compared byte for byte with the code on every run).
 -/
 namespace Cirbo
 
@@ -82,5 +85,25 @@ example : keysNodup [([0xc3, 0xa9], [1, 2, 3]), ([], [])] := by unfold keysNodup
 #print axioms c16_enumeration_order
 #print axioms c16_circuit_roundtrip
 #print axioms c16_circuit_roundtrip_same_function
+
+/-- **encoding and decoding succeed on every circuit that uses only the gate types and arities the format defines**,
+whatever the storage order or the input count (the one size condition: the word size fits the one-byte header, i.e.
+fewer than 2^255 inputs, outputs and gates) — and it is an equivalence: a well-formed circuit is encoded exactly when it
+conforms -/
+theorem c16_encode_succeeds_on_conforming {c : Circuit} (hw : WFS c)
+    (hconf : ∀ g ∈ c.gates, g.ty ≠ GateType.INPUT → (Gen.codecTypeId g.ty).isSome ∧ g.ops.length = Gen.codecArity g.ty)
+    (hws : wordSize c < 256) :
+    (∃ bytes D, encodeCircuit c = .ok bytes ∧ decodeCircuit bytes = .ok D) ∧
+    ((∃ bytes, encodeCircuit c = .ok bytes) ↔
+      ((∀ g ∈ c.gates, g.ty ≠ GateType.INPUT → (Gen.codecTypeId g.ty).isSome ∧ g.ops.length = Gen.codecArity g.ty) ∧ wordSize c < 256)) := by
+  obtain ⟨bytes, D, h1, h2, _⟩ := ct_roundtrip_total hw hconf hws
+  exact ⟨⟨bytes, D, h1, h2⟩, ct_encode_ok_iff hw⟩
+
+/-- and when the encoder refuses a well-formed circuit it raises a database-codec error, nothing else -/
+theorem c16_encode_errors {c : Circuit} (hw : WFS c) {e : String} (h : encodeCircuit c = .error e) :
+    e = "CircuitEncodingError" ∨ e = "BitIOError" := ct_encode_error_range hw h
+
+#print axioms c16_encode_succeeds_on_conforming
+#print axioms c16_encode_errors
 
 end Cirbo
